@@ -6,7 +6,7 @@ let show_comps c = String.concat " " [oc c.c_proto; oc c.c_user; oc c.c_passwd; 
 let parse_lookup s =
   match String.split_on_char ':' s with
   | ["P"] -> LProto | ["N"] -> LNone
-  | ["S"; p; ok] -> LServ (z_of_int (int_of_string p), ok = "1")
+  | ["S"; p; ok] | ["U"; p; ok] -> LServ (z_of_int (int_of_string p), ok = "1")   (* U: found under udp only *)
   | _ -> failwith "lookup"
 let run = function
   | ["url"; lk; text] ->
